@@ -542,6 +542,20 @@ var unused = f()
 func main() { println("main runs") }
 '''
 
+WITNESS_BYTE_SPELLING = '''package main
+
+type sink interface{ write(p []byte) rune }
+
+type buf struct{}
+
+func (buf) write(p []uint8) int32 { println("buf.write"); return 1 }
+
+func main() {
+	var s sink = buf{}
+	println(s.write(nil))
+}
+'''
+
 WITNESS_SELFREF_CONSTRAINT = '''package main
 
 type num int
@@ -556,9 +570,31 @@ func main() { println(int(dbl(num(4)))) }
 
 def witnesses(ctx):
     """the three fixed witness programs, concurrently (ctx.count is called from here, not from the threads)"""
-    for src in (WITNESS_PANICKING_INIT, WITNESS_NAMED_FUNC, WITNESS_SELFREF_CONSTRAINT):
+    for src in (WITNESS_PANICKING_INIT, WITNESS_NAMED_FUNC, WITNESS_SELFREF_CONSTRAINT, WITNESS_BYTE_SPELLING):
         ctx.count(["witness", src], nontrivial=True)
-    C.parallel_map(lambda f: f(ctx), [witness_panicking_init, witness_named_func, witness_selfref])
+    C.parallel_map(lambda f: f(ctx), [witness_panicking_init, witness_named_func, witness_selfref, witness_byte_spelling])
+
+
+def witness_byte_spelling(ctx):
+    # F16: byte/uint8 (rune/int32) are identical types but are spelled differently in the DCE method filter
+    d = os.path.join(wdir(ctx), "w_byte")
+    res = build_and_check(ctx, d, {"main.go": WITNESS_BYTE_SPELLING}, native=True)
+    if res["stage"] == "infra" or "native" not in res:
+        ctx.notes.append("byte/uint8 witness skipped (infrastructure): " + res.get("log", res.get("native_skipped", ""))[:200])
+    elif res["stage"] != "done":
+        ctx.violation("witness-build-failed", "witness program did not build: " + res["log"][-300:], dict(log=res["log"]), concrete=False)
+    else:
+        nrm, al, nat = res["normal"], res["all_alive"], res["native"]
+        ctx.cov["witness_byte_spelling"] = dict(normal_rc=nrm["rc"], normal_jserror=nrm["jserror"], all_alive=al["text"][:60], native=nat["text"][:60])
+        if nat["rc"] == 0 and al["rc"] == 0 and al["text"] == nat["text"] and nrm["rc"] != 0:
+            ctx.violation("dce-unexported-method-byte-uint8-spelling-mismatch",
+                          "interface `write(p []byte) rune`, implementation `write(p []uint8) int32` (identical signatures): Go and the all-alive link print %r, "
+                          "the normally linked program fails (%s): the method filter spells byte/uint8 and rune/int32 differently, the method is eliminated"
+                          % (nat["text"], nrm["jserror"]),
+                          dict(kind="program", files={"main.go": WITNESS_BYTE_SPELLING}, normal=nrm, all_alive=al, native=nat))
+        elif not (nrm["rc"] == 0 and nrm["text"] == nat["text"] == al["text"]):
+            ctx.violation("dce-changes-behaviour", "byte/uint8 witness behaves in an unexpected way",
+                          dict(kind="program", files={"main.go": WITNESS_BYTE_SPELLING}, normal=nrm, all_alive=al, native=nat))
 
 
 def witness_panicking_init(ctx):
@@ -735,5 +771,5 @@ LEVEL_TEXT = ("Machine-checked theorems over an executable model of dce.Info/Sel
               "recording call sites) is checked on generated programs by linking the same archives with and without DCE and by a static reference check of out.js.")
 LEVEL_NOTE = ("The proof covers the selection algorithm and the root rule; the adequacy of the recorded dependencies is a hypothesis of select_sound and is only "
               "tested (48 programs quick / 500 thorough). Known findings: initialisers that can panic without a call/receive are eliminated (HasSideEffect) -- kept in the model "
-              "and refuted in Props/C05.v; a self-referential inline type-parameter constraint "
+              "and refuted in Props/C05.v; byte/uint8 (rune/int32) spelled differently in interface and implementation of an unexported method eliminates the method (filters.go, not in the model); a self-referential inline type-parameter constraint "
               "overflows the stack in filters.go (not in the model). No axioms.")
